@@ -118,6 +118,48 @@ Definition fx_assign (n r : Z) (s : list Z) : Z :=
   | _ => 0     (* shorter than 3 characters: cleared; the decimal branch is "TBD" in the library and is not modelled *)
   end.
 
+(* ---- posit text parser (posit_parse.hpp), the branch taken when the text matches [\d]+\.[0-9][xX][\w]+[p]* ---- *)
+Definition isdigb (c : Z) : bool := Z.leb 48 c && Z.leb c 57.
+Definition iswordb (c : Z) : bool := isdigb c || (Z.leb 65 c && Z.leb c 90) || (Z.leb 97 c && Z.leb c 122) || Z.eqb c 95.
+Fixpoint span_dig (l : list Z) : list Z * list Z :=
+  match l with
+  | c :: r => if isdigb c then let (d, t) := span_dig r in (c :: d, t) else ([], l)
+  | [] => ([], [])
+  end.
+Fixpoint take_until (c0 : Z) (l : list Z) : list Z :=
+  match l with [] => [] | c :: r => if Z.eqb c c0 then [] else c :: take_until c0 r end.
+(* std::istream >> std::hex >> uint64_t: optional 0x / 0X, then the longest run of hexits; no hexit: 0; more than 64 bits: all ones *)
+Fixpoint hex_run (l : list Z) (acc : Z) (seen : bool) : Z * bool :=
+  match l with
+  | [] => (acc, seen)
+  | c :: r => match digit_val c with Some d => hex_run r (acc * 16 + d) true | None => (acc, seen) end
+  end.
+Definition stream_hex (l : list Z) : Z :=
+  let body := match l with 48 :: 120 :: r => r | 48 :: 88 :: r => r | _ => l end in
+  let (v, seen) := hex_run body 0 false in
+  if seen then (if Z.ltb v (2 ^ 64) then v else 2 ^ 64 - 1) else 0.
+Definition posit_regex_fields (s : list Z) : option (list Z * list Z) :=    (* digits before '.', text after the x *)
+  let (d, r1) := span_dig s in
+  match d, r1 with
+  | _ :: _, 46 :: e :: x :: (w :: _) as r2 =>
+      if isdigb e && (Z.eqb x 120 || Z.eqb x 88) && forallb iswordb r2 then Some (d, r2) else None
+  | _, _ => None
+  end.
+(* None: the text is not of the posit form (the library then reads it as a floating-point literal: not modelled) *)
+Definition posit_parse (n : Z) (s : list Z) : option Z :=
+  match posit_regex_fields s with
+  | Some (d, r2) =>
+      match parse_digits 10 d 0 with
+      | Some nb =>
+          let raw := stream_hex (take_until 112 r2) in
+          if Z.ltb n nb then Some ((raw / 2 ^ (nb - n)) mod 2 ^ n)      (* raw < 2^64: a shift by 64 or more leaves 0 *)
+          else Some (raw mod 2 ^ n)
+      | None => None
+      end
+  | None => None
+  end.
+
+
 Definition judge_text (fam : Z) (cfg : list Z) (op : Z) (args res : list Z) : verdict :=
   let n := nth0 cfg 0 in
   let a := nth0 args 0 in
@@ -131,8 +173,9 @@ Definition judge_text (fam : Z) (cfg : list Z) (op : Z) (args res : list Z) : ve
   if Z.eqb op OP_binstr then
     (if Z.eqb fam 2 then exact (cf_bin_string n (nth0 cfg 1) a) else
      if Z.eqb fam 3 then exact (fx_bin_string n (nth0 cfg 1) a) else mkV false [] false) else
-  if Z.eqb op OP_strassign then          (* args = the bytes of the string handed to assign() *)
-    (if Z.eqb fam 2 then exact [cf_assign n (nth0 cfg 1) args] else
+  if Z.eqb op OP_strassign then          (* args = the bytes of the string handed to assign() / parse() *)
+    (if Z.eqb fam 1 then match posit_parse n args with Some v => exact [v] | None => mkV true res false end else
+     if Z.eqb fam 2 then exact [cf_assign n (nth0 cfg 1) args] else
      if Z.eqb fam 3 then
        match args with
        | 48 :: 98 :: _ => exact [fx_assign n (nth0 cfg 1) args]
